@@ -9,7 +9,7 @@
 (*   att    : what pycoin's who_signed reported for every input position.     *)
 (* The specification replays the events on X02_Attribution (the passes must   *)
 (* be steps of Signer.tla, the edits steps of TxValidate.tla) and compares    *)
-(* att with Attribution after every event.  The verdict of a trace is the     *)
+(* att with Attribution / AttributionMay after every event.  The verdict of a trace is the     *)
 (* index of the first event whose report differs (0: none), with what the     *)
 (* specification demands there.  A trace that cannot be replayed to its end   *)
 (* (an event that is no step of the specification) prints no verdict: that is *)
@@ -33,9 +33,10 @@ TInit == /\ tid \in 1..Len(Traces) /\ l = 1 /\ bad = 0 /\ want = <<>>
 
 \* does the report of the current event equal the attribution of the state the event leads to
 ReportOK == /\ Len(Cur.att) = Len(ins')
-            /\ \A pos \in 1..Len(ins') : Pairs(Cur.att[pos]) = Attribution(pos)'
+            /\ \A pos \in 1..Len(ins') : /\ Attribution(pos)' \subseteq Pairs(Cur.att[pos])
+                                           /\ Pairs(Cur.att[pos]) \subseteq AttributionMay(pos)'
 Judge == /\ bad' = IF bad = 0 /\ ~ReportOK THEN l ELSE bad
-         /\ want' = IF bad = 0 /\ ~ReportOK THEN [pos \in 1..Len(ins') |-> Attribution(pos)'] ELSE want
+         /\ want' = IF bad = 0 /\ ~ReportOK THEN [pos \in 1..Len(ins') |-> [must |-> Attribution(pos)', may |-> AttributionMay(pos)']] ELSE want
          /\ l' = l + 1 /\ UNCHANGED tid
          /\ (l' = Len(Ev) + 1 => PrintT(ToJson([k |-> "res", tid |-> tid, bad |-> bad', want |-> want'])))
 
